@@ -9,9 +9,14 @@ PROPS=${@:-$P}
 WT=/tmp/seedrun_${S}_$$
 OUT=/tmp/seedout_${S}_$$
 git -C /repo worktree add -f --detach $WT HEAD >/dev/null 2>&1 || exit 2
-trap "git -C /repo worktree remove --force $WT >/dev/null 2>&1; rm -rf $WT $OUT" EXIT
-if ! git -C $WT apply $D/patch.diff 2>/dev/null; then
-  if ! git -C $WT apply -3 $D/patch.diff >/dev/null 2>&1; then echo "$S: PATCH DOES NOT APPLY to current HEAD"; exit 3; fi
+trap "git -C /repo worktree remove --force $WT >/dev/null 2>&1; rm -rf $WT; [ -z \"$KEEP_OUT\" ] && rm -rf $OUT" EXIT
+if git -C $WT apply --check $D/patch.diff 2>/dev/null; then
+  git -C $WT apply $D/patch.diff
+elif [ -f $D/patch_rebased.diff ] && git -C $WT apply --check $D/patch_rebased.diff 2>/dev/null; then
+  # a seed made against the pinned commit may touch lines changed by a later fix: commit
+  git -C $WT apply $D/patch_rebased.diff; echo "$S: using patch_rebased.diff"
+else
+  echo "$S: PATCH DOES NOT APPLY to current HEAD"; exit 3
 fi
 mkdir -p $OUT
 for p in $PROPS; do
